@@ -313,6 +313,8 @@ class ElectionProfile:
             self._bltParse(data)
         except StopIteration:
             raise ElectionProfileError('bad blt file: unexpected end-of-file')
+        except ValueError as emsg:  # a number with more digits than int() will convert
+            raise ElectionProfileError('bad blt file: %s' % emsg)
 
     def _bltParse(self, data):
         '''
